@@ -1108,9 +1108,9 @@ fn scripts_1(n_items: usize, ready_max: usize, fc: &[(Vec<u8>, Vec<u8>)]) -> Vec
     out
 }
 
-fn enumerate_sinks(tier: Tier) -> Vec<SinkCase> {
+fn enumerate_sinks(tier: Tier, only: &str) -> Vec<SinkCase> {
     let mut out = vec![];
-    let (n1, n2, n3) = tier.pick((3, 3, 2), (4, 3, 3));
+    let (n1, n2, n3) = tier.pick((4, 3, 2), (5, 4, 3));
     let fc_full: Vec<(Vec<u8>, Vec<u8>)> = vec![
         (vec![], vec![]),
         (vec![0], vec![]),
@@ -1121,7 +1121,7 @@ fn enumerate_sinks(tier: Tier) -> Vec<SinkCase> {
     ];
     let fc_small: Vec<(Vec<u8>, Vec<u8>)> = vec![(vec![], vec![]), (vec![0], vec![]), (vec![], vec![0])];
     // one terminal sink
-    for subject in SINK_SUBJECTS_1 {
+    for subject in SINK_SUBJECTS_1.iter().filter(|s| **s == only) {
         let terminal_scripted = !matches!(*subject, "for_each" | "try_for_each" | "chain_flatten_for_each");
         for items in item_patterns(n1) {
             let scripts = if terminal_scripted {
@@ -1152,7 +1152,7 @@ fn enumerate_sinks(tier: Tier) -> Vec<SinkCase> {
         }
     }
     // two terminal sinks
-    for subject in SINK_SUBJECTS_2 {
+    for subject in SINK_SUBJECTS_2.iter().filter(|s| **s == only) {
         for items in item_patterns(n2) {
             if items.iter().enumerate().any(|(p, x)| (*x as usize) != 3 * p) {
                 continue; // routing does not depend on the class here: one word per length
@@ -1174,7 +1174,7 @@ fn enumerate_sinks(tier: Tier) -> Vec<SinkCase> {
         }
     }
     // three terminal sinks
-    for subject in SINK_SUBJECTS_3 {
+    for subject in SINK_SUBJECTS_3.iter().filter(|s| **s == only) {
         for items in item_patterns(n3) {
             let scripts = scripts_1(items.len(), 1, &fc_small);
             for a in &scripts {
@@ -1408,7 +1408,7 @@ pub fn run(ctx: &mut Ctx) {
     ctx.rule = "C14: case = (adaptor, input items with routing class x%3, per-terminal-sink scripts = call indices at which \
         poll_ready/poll_flush/poll_close answer Pending (<=2 each), sticky-or-strict readiness, driver plan (mid/final flush), \
         lazy init future pending count, scripted stream, half interleaving for LazySinkSource). Enumerated over all item words \
-        of length <= 3(4) x all scripts within the stated bounds per adaptor; random cases up to 16 items. Non-trivial = at least \
+        of length <= 4(5) [2 sinks: 3(4), 3 sinks: 2(3)] x all scripts within the stated bounds per adaptor; random cases up to 16 items. Non-trivial = at least \
         one leaf answered Pending while items were in flight; classes mark the DESIGN rule (item buffered while the lazy state \
         initialises; two terminal sinks pending on different polls; multi-item expansion against a pending downstream). \
         Distinct by case hash."
@@ -1418,10 +1418,19 @@ pub fn run(ctx: &mut Ctx) {
     ctx.assume("a leaf that answers Pending keeps the waker it was given; the harness fires those wakers before re-polling");
     let tier = ctx.tier();
     ctx.floor = 1000;
-    ctx.check_all("sink-adaptors-enumerated", enumerate_sinks(tier), run_case);
-    ctx.check_all("send-futures-enumerated", enumerate_futures(tier), run_case);
-    ctx.check_all("lazy-enumerated", enumerate_lazy(tier), run_case);
-    ctx.check_all("lazy-sink-source-enumerated", enumerate_lss(tier), run_case);
-    let cases = tier.pick(150_000u32, 3_000_000u32);
+    if ctx.is_replay() {
+        // replay mode runs exactly the recorded case; no need to generate the enumerations
+        for sub in ["sink-adaptors-enumerated", "send-futures-enumerated", "lazy-enumerated", "lazy-sink-source-enumerated"] {
+            ctx.check_all(sub, Vec::<SinkCase>::new(), run_case);
+        }
+    } else {
+        for subject in SINK_SUBJECTS_1.iter().chain(SINK_SUBJECTS_2).chain(SINK_SUBJECTS_3) {
+            ctx.check_all("sink-adaptors-enumerated", enumerate_sinks(tier, subject), run_case);
+        }
+        ctx.check_all("send-futures-enumerated", enumerate_futures(tier), run_case);
+        ctx.check_all("lazy-enumerated", enumerate_lazy(tier), run_case);
+        ctx.check_all("lazy-sink-source-enumerated", enumerate_lss(tier), run_case);
+    }
+    let cases = tier.pick(300_000u32, 4_000_000u32);
     ctx.check("sink-random", cases, random_strategy(16), run_case);
 }
